@@ -6,6 +6,22 @@ use crate::c01::{operand_def, gen_operand, gen_elem};
 use crate::c03::{sel_src, gen_sel, SEL_CLASSES, SHAPES};
 use mech_interpreter::*;
 
+/// (definitions, the assignment statement)
+pub fn sources(case: &str) -> (String, String) {
+  let f: Vec<&str> = case.split('\t').collect();
+  let def = operand_def("m", f[1], f[2], true);
+  let srcdef = operand_def("v", f[7], f[6], false);
+  let target = if f[4] == "-" { format!("m[{}]", sel_src(f[3])) } else { format!("m[{},{}]", sel_src(f[3]), sel_src(f[4])) };
+  let opsym = match f[5] { "set" => "=", "add" => "+=", "sub" => "-=", "mul" => "*=", "div" => "/=", _ => "=" };
+  let bare = f.len() > 8 && f[8] == "var";
+  let zero = match f[7] { "bool" => "true".to_string(), "string" => "\"\"".to_string(), "r64" => "0/1".to_string(), "c64" => "0+0i".to_string(),
+    "f64" | "f32" => "0.0".to_string(), _ => "0".to_string() };
+  let annot_needed = !(f[7] == "f64" || f[7] == "r64" || f[7] == "c64" || f[7] == "bool" || f[7] == "string");
+  let zdef = format!("z{} := {}\n", if annot_needed { format!("<{}>", f[7]) } else { String::new() }, zero);
+  let srcexpr = if bare { "v".to_string() } else if f[7] == "bool" { "v && z".to_string() } else { "v + z".to_string() };
+  (format!("{}{}{}", def, srcdef, zdef), format!("{} {} {}", target, opsym, srcexpr))
+}
+
 pub fn exec(case: &str) -> String {
   let f: Vec<&str> = case.split('\t').collect();
   let def = operand_def("m", f[1], f[2], true);
